@@ -166,5 +166,5 @@ package stackitem
 //@ func (ByteArray).TryBytes
 //@ ensures result1 == nil && same(result0, i)
 //@ func IsValidMapKey
-//@ requires wfItem(key)
+//@ requires[typeinv] wfItem(key)
 //@ ensures[valid] (result == nil) == validKey(key)
